@@ -183,6 +183,27 @@ mod c04p {
                     }
                     Err(p) => out.violate_panic("C04", "concurrent-check", case.pkg.as_str(), &p),
                 }
+                // a container of hundreds of packs: one byte of the LAST pack's data altered must make the checks fail too
+                if many {
+                    if let Ok(mut bytes) = std::fs::read(&created.path) {
+                        let view = indep::decode_file(&bytes);
+                        let last_content = view.packs.iter().enumerate().filter(|(_, p)| p.hdr.kind == b'c').map(|(i, _)| i).last();
+                        if let Some(sp) = last_content.and_then(|pi| view.spans.iter().find(|s| s.pack == pi && s.name.starts_with("cluster data") && s.end > s.start)) {
+                            bytes[sp.start as usize] ^= 0x20;
+                            let dir2 = scratch.path("many-damaged");
+                            std::fs::create_dir_all(&dir2).unwrap();
+                            let f2 = dir2.join("c.jbk");
+                            std::fs::write(&f2, &bytes).unwrap();
+                            let d2 = dump::dump_container(&f2, &plan);
+                            out.obs.inc("last_pack_of_many_altered");
+                            for key in ["check/container", "check/file/c.jbk"] {
+                                if d2.get(key).map(|v| v == "ok:true").unwrap_or(false) {
+                                    out.violate(json!({"kind": "check-true-after-damage", "check": key, "structure": "cluster data of the last of many packs", "profile": profile()}), format!("C04: {key} answers Ok(true) although a byte of the last of {} packs was altered", view.packs.len()), json!({}));
+                                }
+                            }
+                        }
+                    }
+                }
                 // the same through the command line tool, for every file of the container
                 for f in &created.files {
                     match cli::check(f) {
